@@ -1099,6 +1099,32 @@ func c17Tasks(tier string) []mc.Task {
 			}
 		}})
 	}
+	// the scale of the weights does not enter the maximiser: weights of 1e-5 .. 1e-4 per column (a pair then
+	// weighs far less than any absolute threshold), weights normalised to sum 1 with a pair that has a single
+	// light column in common, and the same multiplied by 1e5; every 2x2 alignment over {A,R,W} and a 3x3 family
+	for _, model := range c17Models {
+		model := model
+		ts = append(ts, mc.Task{Name: fmt.Sprintf("weight-scale#%s", c17ModelNames[model]), Run: func(c *mc.Ctx) {
+			for _, mf := range []bool{true, false} {
+				for _, ga := range []float64{0, 0.5} {
+					for _, wts := range [][]float64{{1e-5, 1e-5}, {2e-5, 1e-5}, {1e-4, 3e-4}, {1.0 / 4096, 1.0 / 4096}, {1e5, 2e5}} {
+						forEachAlignment("ARW", 2, 2, func(seqs []string) bool {
+							c17Check(c, c17Case{Seqs: seqs, Model: model, ModelFreqs: mf, Alpha: ga, Weights: wts})
+							return !c.Expired()
+						})
+					}
+					for _, light := range []float64{0.0005, 1.0 / 1500, 0.002} {
+						w := []float64{light, (1 - light) / 2, (1 - light) / 2}
+						for _, first := range []string{"AAR", "ARW", "RRA"} {
+							// the third row shares only the first (light) column with the others
+							c17Check(c, c17Case{Seqs: []string{first, "AR" + first[2:], first[:1] + "--"}, Model: model, ModelFreqs: mf, Alpha: ga, Weights: w})
+							c17Check(c, c17Case{Seqs: []string{first, "AR" + first[2:], "R--"}, Model: model, ModelFreqs: mf, Alpha: ga, Weights: w})
+						}
+					}
+				}
+			}
+		}})
+	}
 	// composition dominated by one amino acid (a low-complexity alignment): the 20 amino acids once each, the
 	// L column weighing 19000 or 1999 sites, plus every pair of columns over {L,A,R}; with empirical
 	// frequencies the scaled rate matrix then has eigen values far below -745, where exp(lambda) alone is 0
